@@ -174,6 +174,7 @@ struct Agg {
     suspects: Vec<(u64, String)>,   // run index, "stalled"/"crashed"
     ops_total: u64,
     harness: Vec<String>,
+    max_call_cpu_ms: u64,
 }
 
 fn spawn_worker(property: &str, tier: &str, mask: Option<&str>) -> Child {
@@ -227,6 +228,7 @@ pub fn run_batch(cfg: &CheckCfg, indices: Vec<u64>) -> (AggOut, Vec<(u64, String
         suspects: vec![],
         ops_total: 0,
         harness: vec![],
+        max_call_cpu_ms: 0,
     }));
     let queue = Arc::new(Mutex::new(indices.into_iter().rev().collect::<Vec<u64>>()));
     let stall_limit = Duration::from_secs(std::env::var("SIM_STALL_SECS").ok().and_then(|s| s.parse().ok()).unwrap_or(20));
@@ -349,6 +351,7 @@ pub struct AggOut(Agg);
 
 fn absorb(a: &mut Agg, idx: u64, info: &serde_json::Value, out: Outcome) {
     a.results += 1;
+    a.max_call_cpu_ms = a.max_call_cpu_ms.max(out.max_call_cpu_ms);
     a.stats.merge(&out.stats);
     a.ops_total += info["ops"].as_u64().unwrap_or(0);
     *a.per_label.entry(info["label"].as_str().unwrap_or("").to_string()).or_insert(0) += 1;
@@ -646,6 +649,7 @@ pub fn check(cfg: &CheckCfg) -> i32 {
             "checkpoints_skipped_not_synced": agg.stats.checkpoints_skipped_unsynced,
             "checkpoints_handed_to_C10": agg.stats.checkpoints_handed_to_c10,
             "c04_builds_checked": agg.stats.c04_builds_checked,
+            "c04_largest_cpu_time_of_one_api_call_ms": agg.max_call_cpu_ms,
             "c04_located_diagnostics_checked": agg.stats.c04_locations_checked,
             "c04_emitted_modules_imported_by_node": node_modules_checked,
             "c04_distinct_emitted_modules_seen": agg.codes.len(),
